@@ -140,6 +140,72 @@ theorem remove_answers_eq {s : MulticastOutgoingQueue} {q : Queue} (h : Rel s q)
     obtain ⟨g0, hg0, rfl⟩ := hg
     exact (eraseAll_eq batch g0 (h.wf g0 hg0)).2
 
+/-! ### `async_remove_answers` -/
+
+/-- the dict comprehension on one group -/
+def withdrawItem (remove : List RecId) (p : Nat × PySet Nat) : Option (Nat × PySet Nat) :=
+  if (!(PySet.contains natEq (PySet.ofList natEq remove) p.fst)) then
+    some (p.fst, PySet.diff natEq p.snd (PySet.ofList natEq remove))
+  else none
+
+def withdrawGen (remove : List RecId) (g : AnswerGroup) : AnswerGroup :=
+  { send_after := g.send_after, send_before := g.send_before,
+    answers := List.filterMap (withdrawItem remove) (PyDict.items g.answers) }
+
+theorem async_remove_answers_closed (s : MulticastOutgoingQueue) (records : List RecId) :
+    s.async_remove_answers records = { s with queue := s.queue.map (withdrawGen records) } := by
+  unfold MulticastOutgoingQueue.async_remove_answers
+  simp only [Id.run, bind, pure]
+  rw [forIn_id_yield _ _ _ (fun acc p => acc ++ [withdrawGen records p]) (by intro x b; rfl), foldl_append_map]
+  rfl
+
+theorem contains_ofList_nat (l : List RecId) (x : RecId) : PySet.contains natEq (PySet.ofList natEq l) x = l.contains x := by
+  rw [PySet.contains_ofList natEq_keyEq]
+  induction l with
+  | nil => rfl
+  | cons y r ih =>
+    simp only [List.any_cons, List.contains_cons, ih, natEq]
+    cases hxy : (x == y) <;> cases hyx : (y == x) <;> simp_all
+
+/-- the comprehension is the model's `Dict.withdraw` -/
+theorem withdrawItem_eq (remove : List RecId) (e : RecId × List RecId) :
+    withdrawItem remove e = if remove.contains e.1 then none else some (e.1, e.2.filter (fun a => !remove.contains a)) := by
+  unfold withdrawItem
+  simp only [contains_ofList_nat, PySet.diff]
+  cases remove.contains e.1 <;> rfl
+
+theorem withdrawGen_eq (remove : List RecId) (g : Group) :
+    withdrawGen remove (strip g) = strip { g with answers := g.answers.withdraw remove } := by
+  unfold withdrawGen strip Dict.withdraw
+  simp only [PyDict.items, Gen.Reply.q_remove_keep]
+  congr 1
+  induction g.answers with
+  | nil => rfl
+  | cons e r ih =>
+    rw [List.filterMap_cons, List.filter_cons, withdrawItem_eq]
+    cases h : remove.contains e.1
+    · simp only [Bool.false_eq_true, if_false, Bool.not_false, if_true, List.map_cons, ih]
+    · simp only [if_true, Bool.not_true, Bool.false_eq_true, if_false, ih]
+
+theorem withdraw_wf (remove : List RecId) (d : Dict) (h : PyDict.WF natEq d) : PyDict.WF natEq (d.withdraw remove) := by
+  unfold Dict.withdraw PyDict.WF
+  rw [List.pairwise_map]
+  exact List.Pairwise.sublist List.filter_sublist h
+
+/-- **`async_remove_answers`** is the model's `Queue.removeRecords` -/
+theorem async_remove_answers_eq {s : MulticastOutgoingQueue} {q : Queue} (h : Rel s q) (records : List RecId) :
+    Rel (s.async_remove_answers records) (q.removeRecords records) ∧ qpOf (s.async_remove_answers records) = qpOf s := by
+  rw [async_remove_answers_closed]
+  refine ⟨⟨?_, ?_⟩, rfl⟩
+  · simp only [h.groups, Queue.removeRecords, List.map_map]
+    apply List.map_congr_left
+    intro g _
+    exact withdrawGen_eq records g
+  · intro g hg
+    simp only [Queue.removeRecords, List.mem_map] at hg
+    obtain ⟨g0, hg0, rfl⟩ := hg
+    exact withdraw_wf records g0.answers (h.wf g0 hg0)
+
 /-! ### `async_add` -/
 
 theorem last_map_strip (gs : List Group) : PyList.last (gs.map strip) = match gs.getLast? with | some g => .ok (strip g) | none => .error .indexError := by
@@ -429,6 +495,8 @@ inductive QOp where
   | add (now : Int) (answers : Dict) (draw clock : Int)
   | ready (now : Int)
   | remove (batch : Dict)
+  /-- `async_remove_answers(records)` -/
+  | withdraw (records : List RecId)
 
 /-- the dicts handed in are dicts -/
 def QOp.WF : QOp → Prop
@@ -443,6 +511,7 @@ def runGen : List QOp → MulticastOutgoingQueue → Except PyExc (MulticastOutg
   | .ready now :: ops, s =>
     (MulticastOutgoingQueue.async_ready s now now).bind (fun p => (runGen ops p.1).map (fun r => (r.1, p.2 ++ r.2)))
   | .remove batch :: ops, s => runGen ops (s.remove_answers_from_queue batch)
+  | .withdraw records :: ops, s => runGen ops (s.async_remove_answers records)
 
 /-- the hand model, call after call: the queue, and per call the timer it armed and the batch it sent -/
 def runModel (p : QP) : List QOp → Queue → Queue × List QEffect
@@ -453,6 +522,7 @@ def runModel (p : QP) : List QOp → Queue → Queue × List QEffect
   | .ready now :: ops, q =>
     ((runModel p ops (Queue.ready q now).1).1, effOf (Queue.ready q now).1.timer (Queue.ready q now).2 ++ (runModel p ops (Queue.ready q now).1).2)
   | .remove batch :: ops, q => runModel p ops { q with groups := removeAnswers q.groups batch }
+  | .withdraw records :: ops, q => runModel p ops (q.removeRecords records)
 
 /-- **every history of calls**: the generated queue never raises (no `IndexError` from `queue[0]` / `queue[-1]` / `popleft`, the
 `while` bound suffices), stays the model's queue, and arms exactly the model's timers and sends exactly the model's batches -/
@@ -485,6 +555,12 @@ theorem run_eq (ops : List QOp) (hops : ∀ op ∈ ops, op.WF) {s : MulticastOut
       · simp only [runModel]; rw [hq] at hr2; exact hr2
     | remove batch =>
       have hr := remove_answers_eq h batch
+      obtain ⟨s2, h2, hr2, hq2⟩ := ih hrest hr.1
+      refine ⟨s2, ?_, ?_, hq2.trans hr.2⟩
+      · simp only [runGen, runModel]; rw [hr.2] at h2; exact h2
+      · simp only [runModel]; rw [hr.2] at hr2; exact hr2
+    | withdraw records =>
+      have hr := async_remove_answers_eq h records
       obtain ⟨s2, h2, hr2, hq2⟩ := ih hrest hr.1
       refine ⟨s2, ?_, ?_, hq2.trans hr.2⟩
       · simp only [runGen, runModel]; rw [hr.2] at h2; exact h2
